@@ -570,7 +570,7 @@ inc:  // Algorithm for incY != 0 ( split loads in kernel )
 	NEGQ    TMP1
 	CMPQ    INC_X, $0
 	CMOVQLT TMP1, TMP2
-	LEAQ    (X_PTR)(TMP2*SIZE), X_PTR
+	LEAQ    (X_PTR)(TMP2*1), X_PTR // TMP2 is a byte offset: INC_X is already scaled
 
 	XORQ    TMP2, TMP2
 	MOVQ    N, TMP1
@@ -579,7 +579,7 @@ inc:  // Algorithm for incY != 0 ( split loads in kernel )
 	NEGQ    TMP1
 	CMPQ    INC_Y, $0
 	CMOVQLT TMP1, TMP2
-	LEAQ    (Y_PTR)(TMP2*SIZE), Y_PTR
+	LEAQ    (Y_PTR)(TMP2*1), Y_PTR // TMP2 is a byte offset: INC_Y is already scaled
 
 	SHRQ $2, M
 	JZ   inc_r2
